@@ -155,7 +155,7 @@ func storeInstr(r *rng.R, p *progBuilder, a uint16, c02 bool, idx int) {
 	alts[r.Intn(len(alts))]()
 }
 
-var trapAddrChoices = []uint16{0x3C80, 0x00F0, 0x01F0, 0x2DDD, 0x3CFF, 0x3C00, 0x0100, 0x00FF, 0x01FF}
+var trapAddrChoices = []uint16{0x3C80, 0x00F0, 0x01F0, 0x2DDD, 0x3CFF, 0x3C00, 0x0100, 0x00FF, 0x01FF, 0xFFF0, 0xFF00}
 
 type trapCase struct {
 	model int
@@ -180,6 +180,10 @@ func genTrapCase(r *rng.R) *trapCase {
 	}
 	if c.base != "sparse" && c.t < 0x10 {
 		c.t = 0x00F0
+	}
+	if c.base != "sparse" && c.t >= 0x4000 {
+		// a trap address in the last page: on a machine that has plain memory there
+		c.base = "Linear64K"
 	}
 	t := c.t
 	c.init[t], c.init[t-1], c.init[t+1], c.init[t^0x0100] = 0x5C, 0x11, 0x22, 0x33
@@ -358,9 +362,9 @@ type portCase struct {
 }
 
 func genPortCase(r *rng.R) *portCase {
-	c := &portCase{ioMask: []uint8{0x2D, 0x3C, 0x02, 0x01, 0x00}[r.Intn(5)], ports: map[uint8]string{}, spec: "Linear64K"}
-	if r.Chance(40) {
-		// the port layer sits on top of every memory model
+	c := &portCase{ioMask: []uint8{0x2D, 0x3C, 0x02, 0x01, 0x00, 0xFF}[r.Intn(6)], ports: map[uint8]string{}, spec: "Linear64K"}
+	if r.Chance(40) && c.ioMask != 0xFF {
+		// the port layer sits on top of every memory model (the last page only where every model has plain memory)
 		c.spec = memSpecs[r.Intn(len(memSpecs))]
 	}
 	specs := []string{"stdout:16", "stdout:1", "stdout:3", "stdout:0", "stdout:bin", "printer:petscii", "stdout:2", "stdout:4294967296"}
